@@ -91,11 +91,14 @@ func (s *gkvp) SerializeValueTo(pc *PrintCtx) {
 	// if sb.jsonMode {
 	// 	sb.appendRune('}')
 	// }
-	_ = serializeAttrs(pc, s.items)
+	// the members are sorted in place while printing and a group may be
+	// shared by concurrent records, so work on a copy.
+	_ = serializeAttrs(pc, slices.Clone(s.items))
 }
 
 func (s Attrs) SerializeValueTo(pc *PrintCtx) {
-	_ = serializeAttrs(pc, s)
+	// see gkvp.SerializeValueTo: never sort a possibly shared slice in place.
+	_ = serializeAttrs(pc, slices.Clone(s))
 }
 
 func dedupeSlice[S ~[]E, E any](x S, cmp func(a, b E) bool) S {
